@@ -68,9 +68,11 @@ var propRules = map[string]*PropSpec{
 		Technique:   "static analysis: CFG reachability after the stop edge (go/ssa), AST type-switch exhaustiveness, ownership summaries",
 	},
 	"C05": {
-		Rules:       []string{"B1", "B2", "B5", "L2", "L5", "A4", "F8.bitmap"},
+		Rules:       []string{"B1", "B2", "B5", "L2", "L5", "A4", "F8.bitmap", "A8", "G1"},
 		Explanation: explBase + " C05: error propagation on every encode/decode path, byte accounting of writers and readers, bounded reads, agreement of size prediction / writer / reader on the offset-header predicate and payload sizes, and flagging of zero-copy payloads.",
 		Decided: []string{
+			"the copying decoders (ReadFrom, UnmarshalBinary, FromBase64) keep no pointer into the caller's slice; only the documented zero-copy constructors do",
+			"decoding uses no package-level scratch memory",
 			"no error of a writer/reader call is dropped, and no return reached after a failed call reports nil",
 			"returned byte counts depend on the count of every write; the counting reader accounts every read",
 			"every read of the byte sources is bounds-checked (or delegated to io.ReadAtLeast/ReadFull)",
@@ -105,11 +107,13 @@ var propRules = map[string]*PropSpec{
 		Technique:  techOwn,
 	},
 	"C08": {
-		Rules:       []string{"A4", "A5", "A2.32", "A3.32"},
+		Rules:       []string{"A4", "A5", "A2.32", "A3.32", "A8"},
 		Explanation: explBase + " C08: caller-owned memory enters a bitmap only as container payload under a true copy-on-write flag, never as a slot-table array; every payload write honours the flag; detach deep-copies every flagged slot.",
-		Decided:     []string{"FromBuffer/FromUnsafeBytes/FrozenView/FromDense(no copy): payload slices of the caller's memory are stored only in containers whose slot flag is true on that path; keys/containers/flags arrays are library-allocated", "NextReturnsSafeSlice is true only for a byte source whose Next allocates", "every in-place path obtains its container through the gate (A2) and flags travel with containers (A3)", "CloneCopyOnWriteContainers replaces every flagged slot by a deep clone and clears the flag"},
-		NotDecided:  []string{"that the bitmap keeps behaving as a correct set (C01-C04)"},
-		Technique:   "static analysis: taint propagation of caller-owned slices over go/ssa + ownership typestate",
+		Decided: []string{
+			"only the documented zero-copy constructors keep a reference to a caller's slice",
+			"FromBuffer/FromUnsafeBytes/FrozenView/FromDense(no copy): payload slices of the caller's memory are stored only in containers whose slot flag is true on that path; keys/containers/flags arrays are library-allocated", "NextReturnsSafeSlice is true only for a byte source whose Next allocates", "every in-place path obtains its container through the gate (A2) and flags travel with containers (A3)", "CloneCopyOnWriteContainers replaces every flagged slot by a deep clone and clears the flag"},
+		NotDecided: []string{"that the bitmap keeps behaving as a correct set (C01-C04)"},
+		Technique:  "static analysis: taint propagation of caller-owned slices over go/ssa + ownership typestate",
 	},
 	"C09": {
 		Rules:       []string{"F3.32", "F8.bitmap", "F8.run", "F2", "V1", "V2", "A6.kernel", "A2.32", "A3.32"},
@@ -119,11 +123,13 @@ var propRules = map[string]*PropSpec{
 		Technique:   techMix,
 	},
 	"C10": {
-		Rules:       []string{"B1", "B4", "B5", "T1", "V1", "V2", "U1"},
+		Rules:       []string{"B1", "B4", "B5", "T1", "V1", "V2", "U1", "G1"},
 		Explanation: explBase + " C10: decoder error discipline, Must* wrappers, bounded reads, size fields bounded before allocation, validator conjuncts (incl. the wrap bound on every run), no 16-bit arithmetic in the frozen reader.",
-		Decided:     []string{"no decoder error is dropped (incl. SkipBytes); MustReadFrom returns ReadFrom's results and panics only with Validate's error", "byte sources check bounds before every slice/advance", "decoded sizes are bounded by a constant before make()/slicing (32-bit decoders)", "validators contain every conjunct the property lists, evaluated on every element"},
-		NotDecided:  []string{"absence of panics in general (arithmetic sufficiency of frozenView's length guards)", "hang-freedom", "mutual consistency of queries on validated input"},
-		Technique:   techErr + "; taint of decoded sizes",
+		Decided: []string{
+			"decoders use no package-level scratch memory",
+			"no decoder error is dropped (incl. SkipBytes); MustReadFrom returns ReadFrom's results and panics only with Validate's error", "byte sources check bounds before every slice/advance", "decoded sizes are bounded by a constant before make()/slicing (32-bit decoders)", "validators contain every conjunct the property lists, evaluated on every element"},
+		NotDecided: []string{"absence of panics in general (arithmetic sufficiency of frozenView's length guards)", "hang-freedom", "mutual consistency of queries on validated input"},
+		Technique:  techErr + "; taint of decoded sizes",
 	},
 	"C11": {
 		Rules:       []string{"F9", "F2", "A1.api32", "A1.slices", "A2.32", "A3.32", "A6.kernel", "U1"},
@@ -133,11 +139,13 @@ var propRules = map[string]*PropSpec{
 		Technique:   techMix,
 	},
 	"C12": {
-		Rules:       []string{"P1", "P3", "P4", "PT", "A1.api32", "A2.32", "A3.32"},
+		Rules:       []string{"P1", "P3", "P4", "PT", "A1.api32", "A2.32", "A3.32", "G1"},
 		Explanation: explBase + " C12: protocol skeleton only: WaitGroup pairing, single close by the creator, range-workers released on every path, pool typestate, workers never change input contents.",
-		Decided:     []string{"every goroutine preceded by wg.Add(1) runs a function whose every path calls wg.Done (deferred)", "every channel is closed at most once, by the function that created it, and every for-range worker's channel is closed on every path to the spawner's return", "pooled adapters are Reset after Get, Put exactly once on every path and not retained", "parallel aggregates never change input contents: every payload write in the workers' call trees goes through an owned container (A1/A2/A3)"},
-		NotDecided:  []string{"absence of data races in general", "result determinism across schedules", "count-based termination arguments (sent == expected)", "GOMAXPROCS effects — these need a race detector / model checker, a different family"},
-		Technique:   "static analysis: goroutine/channel/WaitGroup/pool skeleton rules over go/ssa CFG (must-pass-through, at-most-once)",
+		Decided: []string{
+			"no library function writes package-level state (shared by all goroutines)",
+			"every goroutine preceded by wg.Add(1) runs a function whose every path calls wg.Done (deferred)", "every channel is closed at most once, by the function that created it, and every for-range worker's channel is closed on every path to the spawner's return", "pooled adapters are Reset after Get, Put exactly once on every path and not retained", "parallel aggregates never change input contents: every payload write in the workers' call trees goes through an owned container (A1/A2/A3)"},
+		NotDecided: []string{"absence of data races in general", "result determinism across schedules", "count-based termination arguments (sent == expected)", "GOMAXPROCS effects — these need a race detector / model checker, a different family"},
+		Technique:  "static analysis: goroutine/channel/WaitGroup/pool skeleton rules over go/ssa CFG (must-pass-through, at-most-once)",
 	},
 	"C13": {
 		Rules:       []string{"L4", "L1", "B1", "B3", "A4", "T1"},
@@ -175,11 +183,14 @@ var propRules = map[string]*PropSpec{
 		Technique:   techOwn,
 	},
 	"C18": {
-		Rules:       []string{"B1", "B2", "B5", "T1", "L1", "V1", "F3.64"},
+		Rules:       []string{"B1", "B2", "B5", "T1", "L1", "V1", "F3.64", "A8", "G1"},
 		Explanation: explBase + " C18: error propagation and byte accounting of the 64-bit writers/readers, bounded reads, the bound on the bucket count before allocation, agreement of writer/readers/size predictor on the framing, validator wiring, no empty bucket stored.",
-		Decided:     []string{"no reader/writer error is dropped in roaring64 WriteTo/ReadFrom/FromUnsafeBytes and the inner 32-bit decoders", "returned counts depend on every inner count", "the key is read with io.ReadFull / bounds-checked Next", "decoded counts reach make() only behind an upper bound", "writer, both readers and GetSerializedSizeInBytes agree on the framing (8-byte count, 4-byte key per bucket)", "roaring64 Validate checks every bucket, key order, table lengths and rejects empty buckets", "mutators never leave an empty bucket in the table (it would fail Validate after a round trip)"},
-		NotDecided:  []string{"round-trip equality", "hang-freedom", "that decoders reset a reused receiver"},
-		Technique:   techErr,
+		Decided: []string{
+			"roaring64 UnmarshalBinary/ReadFrom keep no pointer into the caller's slice",
+			"decoding uses no package-level scratch memory",
+			"no reader/writer error is dropped in roaring64 WriteTo/ReadFrom/FromUnsafeBytes and the inner 32-bit decoders", "returned counts depend on every inner count", "the key is read with io.ReadFull / bounds-checked Next", "decoded counts reach make() only behind an upper bound", "writer, both readers and GetSerializedSizeInBytes agree on the framing (8-byte count, 4-byte key per bucket)", "roaring64 Validate checks every bucket, key order, table lengths and rejects empty buckets", "mutators never leave an empty bucket in the table (it would fail Validate after a round trip)"},
+		NotDecided: []string{"round-trip equality", "hang-freedom", "that decoders reset a reused receiver"},
+		Technique:  techErr,
 	},
 	"C19": {
 		Rules:       []string{"PC1", "PC2", "B1", "P1", "A7"},
